@@ -27,7 +27,8 @@ Record config := {
   c_rule : option rule;                 (* ServerRule.Get(conn) for a connection without a listed SNI *)
   c_rules : list (bytes * rule);        (* ServerRule.Get(conn) by conn.serverName (exact match) *)
   c_certs : list (bytes * bool);        (* NameToCertificate: name -> certificate key is ECDSA *)
-  c_cache : Z }.                        (* 0: ServerSessionCache = nil; 1: configured; 2: configured, SessionCacheDisabled *)
+  c_cache : Z;
+  c_reloads : Z }.                      (* number of session-ticket-key reloads (Config.Clone + UpdateListener) before the connection *)                        (* 0: ServerSessionCache = nil; 1: configured; 2: configured, SessionCacheDisabled *)
 
 Inductive ticket := NoTicket | BadTicket | GoodTicket (svers ssuite ncerts : Z).
 Record hello := {
@@ -316,6 +317,23 @@ Definition eff (c : config) (h : hello) : config :=
      c_priority := c_priority c; c_protos := c_protos c; c_curves := c_curves c; c_poodle := c_poodle c;
      c_tickets_disabled := c_tickets_disabled c; c_client_auth := c_client_auth c;
      c_ecdsa := select_cert c (h_sni h); c_rule := select_rule c (h_sni h);
-     c_rules := []; c_certs := []; c_cache := c_cache c |}.
+     c_rules := []; c_certs := []; c_cache := c_cache c; c_reloads := c_reloads c |}.
 
 Definition negotiate (c : config) (h : hello) : outcome := negotiate1 (eff c h) h.
+
+(* ---- reload path: HttpsListener.UpdateSessionTicketKey = Config.Clone, new ticket key, UpdateListener.
+   Clone copies the configuration field by field; the ticket key itself is not part of this model
+   (tickets are abstracted to 'issued under the live key'). ---- *)
+Definition clone (c : config) : config :=
+  {| c_min := c_min c; c_max := c_max c; c_prefer_server := c_prefer_server c; c_suites := c_suites c;
+     c_priority := c_priority c; c_protos := c_protos c; c_curves := c_curves c; c_poodle := c_poodle c;
+     c_tickets_disabled := c_tickets_disabled c; c_client_auth := c_client_auth c; c_ecdsa := c_ecdsa c;
+     c_rule := c_rule c; c_rules := c_rules c; c_certs := c_certs c; c_cache := c_cache c;
+     c_reloads := c_reloads c |}.
+Fixpoint reload_n (n : nat) (c : config) : config :=
+  match n with O => c | S k => reload_n k (clone c) end.
+(* the configuration live on the listener when the connection arrives *)
+Definition live (c : config) : config := reload_n (Z.to_nat (Z.min (Z.max 0 (c_reloads c)) 16)) c.
+(* observation of the harness: negotiation outcome on the live config, and the list of Config fields
+   (other than the ticket key) that differ between the configured and the live Config: none *)
+Definition serve (c : config) (h : hello) : outcome * list bytes := (negotiate (live c) h, []).
